@@ -421,6 +421,19 @@ fn main() {
                     let v: ArrayView1<f64> = a.slice(s![..;-1]);
                     run_custom1!(kind, buf, w, len, v, ArrayView1<'_, f64>, |s: ArrayView1<f64>| cells_f64(&s.to_vec()))
                 }); }
+                // stepped views (stride 2, 3, -2 over a longer base array whose other cells hold a poison value): the window
+                // start must be scaled by the stride
+                if !two { for step in [2isize, 3, -2] {
+                    let be = format!("nd_step{}", step);
+                    em.case("exact", &tags("nd_step"), &desc(&be), || term(fast_body), || {
+                        let k = step.unsigned_abs();
+                        let mut big = vec![-99.5; if len == 0 { 0 } else { (len - 1) * k + 1 }];
+                        for i in 0..len { let p = if step > 0 { i * k } else { (len - 1 - i) * k }; big[p] = xs[i] }
+                        let a = Array1::from_vec(big);
+                        let v: ArrayView1<f64> = a.slice(s![..;step]);
+                        run_custom1!(kind, buf, w, len, v, ArrayView1<'_, f64>, |s: ArrayView1<f64>| cells_f64(&s.to_vec()))
+                    });
+                } }
                 for rot in [0usize, 1, len / 2 + 1] {
                     let be = format!("deque{}", rot);
                     // VecDeque: default rolling_custom = iterator body on both paths; custom_to = index body
